@@ -1,6 +1,8 @@
 package checks
 
 import (
+	"reflect"
+	"unsafe"
 	"fmt"
 	"sort"
 	"strings"
@@ -76,6 +78,31 @@ type c08Run struct {
 	everInit     map[string]bool // replacement name -> it reported Initialized at the end of some earlier step
 	latched      bool
 	skipSync     bool // the cluster cache is not brought up to date after this step (informer lag of one step)
+	// work: the orchestration queue's work items — NodeClaims for which StartCommand pushed an event into the queue's
+	// source channel and whose reconcile has not finished without a requeue yet. The controller reconciles nothing else.
+	work map[string]bool
+}
+
+// drainQueueSource plays controller-runtime's channel source: it takes the events StartCommand pushed into the queue's
+// (unexported) source channel and turns them into work items.
+func (x *c08Run) drainQueueSource() {
+	if x.work == nil {
+		x.work = map[string]bool{}
+	}
+	f := reflect.ValueOf(x.env.Queue).Elem().FieldByName("source")
+	if !f.IsValid() {
+		panic("disruption.Queue has no field 'source' any more: the work-queue model of C08 needs updating")
+	}
+	ch := reflect.NewAt(f.Type(), unsafe.Pointer(f.UnsafeAddr())).Elem()
+	for {
+		v, ok := ch.TryRecv()
+		if !ok {
+			return
+		}
+		if nc, ok := v.FieldByName("Object").Interface().(*v1.NodeClaim); ok && nc != nil {
+			x.work[nc.Name] = true
+		}
+	}
 }
 
 func (x *c08Run) newControllers() {
@@ -91,6 +118,7 @@ func (x *c08Run) restart() {
 	w.RebindInformers()
 	w.SyncCluster()
 	x.env.Queue = disruption.NewQueue(w.Client, w.Rec, w.Cluster, w.Clock, w.Prov)
+	x.work = map[string]bool{}
 	x.newControllers()
 	x.restarted = true
 }
@@ -234,15 +262,22 @@ func (x *c08Run) run(run *explore.Run, steps int, faults bool) {
 				}
 			}
 		}
+		x.drainQueueSource()
 		for _, cmd := range x.liveCommands() {
 			cmd := cmd
 			first := cmd.Candidates[0].NodeClaim
+			if !x.work[first.Name] {
+				continue // no event was ever pushed for this entry: the controller will never look at it
+			}
 			script = append(script, act{"queue:" + first.Name, func() {
 				obj := w.GetNodeClaim(first.Name)
 				if obj == nil {
 					obj = first
 				}
-				_, _ = env.Queue.Reconcile(w.Ctx, obj)
+				res, err := env.Queue.Reconcile(w.Ctx, obj)
+				if err == nil && res.RequeueAfter == 0 && !res.Requeue { //nolint:staticcheck
+					delete(x.work, first.Name)
+				}
 			}})
 		}
 		script = append(script, act{"clock+2s", func() { w.Clock.Step(2 * time.Second) }})
@@ -377,7 +412,8 @@ func (x *c08Run) run(run *explore.Run, steps int, faults bool) {
 			if nc == nil || node == nil || nc.DeletionTimestamp != nil {
 				continue
 			}
-			// a later command may legitimately hold the node again
+			// a later command in flight may legitimately hold the node again (the general clause below covers a queue entry
+			// that belongs to no command in flight)
 			if env.Queue.HasAny(cn.ProviderID()) {
 				continue
 			}
@@ -400,6 +436,45 @@ func (x *c08Run) run(run *explore.Run, steps int, faults bool) {
 			}
 		}
 	}
+	// ... and, whatever became of the commands (an action whose StartCommand failed half-way never shows up in the queue
+	// at all): a node that exists, is not being deleted and is a candidate of NO command in flight is in service
+	held := map[string]bool{}
+	x.drainQueueSource()
+	for _, c := range x.liveCommands() {
+		if len(c.Candidates) == 0 || !x.work[c.Candidates[0].NodeClaim.Name] {
+			continue // an entry nobody will ever reconcile is not a command in flight
+		}
+		for _, cn := range c.Candidates {
+			held[cn.ProviderID()] = true
+		}
+	}
+	for n := range w.Cluster.Nodes() {
+		if n.Node == nil || n.NodeClaim == nil || held[n.ProviderID()] || x.deletedBy[n.NodeClaim.Name] != "" {
+			continue
+		}
+		nc, node := w.GetNodeClaim(n.NodeClaim.Name), w.GetNode(n.Node.Name)
+		if nc == nil || node == nil || nc.DeletionTimestamp != nil || node.DeletionTimestamp != nil {
+			continue
+		}
+		var why []string
+		for _, t := range node.Spec.Taints {
+			if t.Key == v1.DisruptedTaintKey {
+				why = append(why, "the disruption taint is still on the node")
+			}
+		}
+		if nc.StatusConditions().Get(v1.ConditionTypeDisruptionReason) != nil {
+			why = append(why, "the DisruptionReason condition is still on the NodeClaim")
+		}
+		if n.MarkedForDeletion() {
+			why = append(why, "the node is still marked for deletion in the cluster state")
+		}
+		if env.Queue.HasAny(n.ProviderID()) {
+			why = append(why, "the orchestration queue still maps the node to a command that is not in flight")
+		}
+		if len(why) > 0 {
+			x.viol = append(x.viol, c01Violation{"node held by no command in flight is not in service after the settle: " + rollbackClass(why), fmt.Sprintf("after a fault-free settle node %s is a candidate of no command in flight, yet: %s", node.Name, strings.Join(why, "; "))})
+		}
+	}
 }
 
 func rollbackClass(why []string) string {
@@ -412,6 +487,8 @@ func rollbackClass(why []string) string {
 			c = append(c, "condition")
 		case strings.Contains(w, "marked"):
 			c = append(c, "deletion-mark")
+		case strings.Contains(w, "queue"):
+			c = append(c, "queue-entry")
 		}
 	}
 	return strings.Join(c, "+")
